@@ -48,7 +48,7 @@ def run_tlc(module, cfg, outfile, workers=4, env=None, heap="6g", extra=None, ti
 
 
 def parse_tlc(outfile, rc=0):
-    res = dict(states=0, distinct=0, depth=0, rc=rc, finished=False, error=None, rejects=[], stuck=None,
+    res = dict(states=0, distinct=0, depth=0, rc=rc, finished=False, error=None, rejects=[], details=[], stuck=None,
                consumed=None, invariant=None)
     with open(outfile, errors="replace") as f:
         for line in f:
@@ -64,6 +64,10 @@ def parse_tlc(outfile, rc=0):
                 res["finished"] = True
             if line.startswith('<<"REJECT"'):
                 res["rejects"].append(line.strip())
+                res["details"].append("")
+            elif res["rejects"] and len(res["details"][-1]) < 1500 and not line.startswith('<<"TRACE-'):
+                if line.startswith('<<"DETAIL"') or line.startswith('<< "DETAIL"') or (res["details"][-1] and line.startswith(" ")):
+                    res["details"][-1] += line.strip() + " "
             if line.startswith('<<"TRACE-CONSUMED"'):
                 res["consumed"] = int(re.search(r"(\d+)", line).group(1))
             if line.startswith('<<"TRACE-STUCK-AT"'):
